@@ -356,13 +356,55 @@ pub fn run(tier: Tier) -> i32 {
         }
     }
 
+    // Oracle 3b: the conflicting commitment arrives after k genuine shreds of the slice (and
+    // possibly the whole block) are already stored: it must still be reported, never absorbed
+    for (dname, alt) in [("different-data", &alt_data), ("different-last-flag", &alt_flag)] {
+        for prior in ["31-of-slice", "slice-reconstructed", "other-slice-complete", "block-complete"] {
+            for i2 in [0usize, 5, 40, 63] {
+                evals += 1;
+                nontrivial += 1;
+                let replay = json!({"oracle": "conflicting-slice-after-genuine-shreds", "conflict": dname, "genuine_shreds_stored_before": prior, "conflicting_shred": i2});
+                let r = catch(|| {
+                    let mut bs = BsH::new();
+                    let mut before = Vec::new();
+                    let feed: Vec<&alpenglow::shredder::ValidatedShred> = match prior {
+                        "31-of-slice" => block.shreds[1].iter().take(31).collect(),
+                        "slice-reconstructed" => block.shreds[1].iter().take(32).collect(),
+                        "other-slice-complete" => block.shreds[0].iter().take(32).chain(block.shreds[1].iter().take(3)).collect(),
+                        _ => block.shreds[0].iter().take(32).chain(block.shreds[1].iter().take(32)).collect(),
+                    };
+                    for s in feed {
+                        before.extend(bs.add_diss(s.clone()).1);
+                    }
+                    let (r2, e2) = bs.add_diss(alt[i2].clone());
+                    (before, r2.map(|_| ()), e2)
+                });
+                match r {
+                    Err(p) => report.violation("C12:blockstore-panics-on-conflict", p, replay),
+                    Ok((before, r2, e2)) => {
+                        if before.iter().any(|e| matches!(e, Ev::Invalid(_))) {
+                            report.violation("C12:validated-shred-gets-correct-leader-flagged:prefix".to_string(), format!("genuine shreds alone produced {before:?}"), replay.clone());
+                        }
+                        if r2 != Err(AddShredError::Equivocation) || !e2.contains(&Ev::Invalid(5)) {
+                            report.violation(
+                                format!("C12:equivocation-silently-accepted-by-blockstore:{dname}:after-{prior}"),
+                                format!("validly signed conflicting commitment for slot 5 slice 1 ({dname}) arriving after {prior}: result {r2:?}, events {e2:?}"),
+                                replay,
+                            );
+                        }
+                    }
+                }
+            }
+        }
+    }
+
     let node_cases = node_level(&report);
     evals += node_cases;
     nontrivial += node_cases;
     let cov = json!({
         "evaluations": evals,
         "distinct_nontrivial": nontrivial,
-        "rule": "base shreds (indices at both ends and around the data/coding boundary) of a 2-slice and a 1-slice block signed by the leader; every mutation of the menu (slot, slice index, last flag, shred index -> each of the other 63, one flipped bit per payload byte (quick: every 7th), payload length, every proof element flipped/dropped/swapped, proof lengths 0..33, signature bytes flipped / replaced, type tag) x cached commitment in {none, identical, different validly signed one, one of another slot}; every mutant that passes validation is fed with genuine shreds at 4 positions to a real blockstore; two conflicting signed slices in both orders at the blockstore; non-trivial = every mutated or conflicting case; all distinct by construction",
+        "rule": "base shreds (indices at both ends and around the data/coding boundary) of a 2-slice and a 1-slice block signed by the leader; every mutation of the menu (slot, slice index, last flag, shred index -> each of the other 63, one flipped bit per payload byte (quick: every 7th), payload length, every proof element flipped/dropped/swapped, proof lengths 0..33, signature bytes flipped / replaced, type tag) x cached commitment in {none, identical, different validly signed one, one of another slot}; every mutant that passes validation is fed with genuine shreds at 4 positions to a real blockstore; two conflicting signed slices in both orders at the blockstore, and the conflicting slice arriving after 31 / 32 genuine shreds of the slice, after the other slice, and after the whole block was stored; non-trivial = every mutated or conflicting case; all distinct by construction",
         "exhaustive": true,
         "mutants_per_class_and_base": classes,
         "mutants_passing_validation": passing.len(),
